@@ -40,11 +40,11 @@ example : (checkOnce (Prog.skip "s") (.buf []) TS.fresh).err = some (.invalid "s
 /-- Errorf inside a Custom function (inner `*T`) is not lost: `failOnError` at the end of the
     body of the parent sees it -/
 example : (checkOnce (.inner (.errorf "in custom" (.ret .nil)) .ret) (.buf []) TS.fresh).err
-    = some (.stop "in custom" siteEndOfBody) := by
+    = some (.stop "in custom" sitePending) := by
   simp [checkOnce, Prog.bind, Prog.run, Out.ofRes, cleanupPhase, TS.fresh, runStack, stackSize, Out.after]
 /-- …nor from a cleanup registered on the inner `*T` -/
 example : (checkOnce (.inner (.cleanup (.errorf "late" .done) (.ret .nil)) .ret) (.buf []) TS.fresh).err
-    = some (.stop "late" siteEndOfBody) := by
+    = some (.stop "late" sitePending) := by
   simp [checkOnce, Prog.bind, Prog.run, Out.ofRes, cleanupPhase, TS.fresh, runStack, stackSize, Out.after,
     CTree.run, CTree.size]
 
